@@ -186,3 +186,18 @@ Theorem C21_codegen_old_order_refuted :
             last h CEdit = CTransfer 1 true.
 Proof. exists [CTransfer 1 true; CCrashT 2 true 4; CTransfer 1 true]. vm_compute. auto. Qed.
 Print Assumptions C21_codegen_old_order_refuted.
+
+(* a caller overlapping a codegen writer that has removed the cache file (first step of its save) and is
+   killed while building libraries: wherever the removal falls relative to the caller's load_model — before
+   it, in the gap between its existence/mtime test and its open, or after it — the caller returns the correct
+   model.  (The gap is not a separate state of the model: the test and the open raise the same
+   FileNotFoundError class, which is what the routing table must send to recompilation; the real schedules
+   with the removal inside the gap are exercised by the harness op `gap`.) *)
+Theorem C21_reader_vs_removal (t : tables) (h : list op) (o : nat) (e late sf : bool) :
+  routes_ok t = true ->
+  let w := world_after t w0 h in
+  Forall (good w o) (snd (step_op t w (Gap o e late sf))).
+Proof.
+  intros Hr w. exact (proj1 (step_op_good t w (Gap o e late sf) Hr (Inv_after t h Hr w0 Inv_w0))).
+Qed.
+Print Assumptions C21_reader_vs_removal.
